@@ -1,6 +1,13 @@
 // Prelude of unit `hashmap` (model I: no float reasoning, f64/f32 are opaque element values).
 // Everything the extracted code calls but that is not extracted.  Each contract below is an
-// ASSUMPTION of this unit (ids for DESIGN §6 in the comments); none of them is proved elsewhere.
+// ASSUMPTION of this unit; none of them is proved by another unit.  Ids for DESIGN §6:
+//   A-hashmap       std HashMap<String, V>: get_mut / index / insert act on the entry stored under the key
+//                   (+ iteration visits every key once: scaffold dropped by R8 around the finalize bodies;
+//                    + HashMapChainStorage::new gives all four maps the keys/types of the type lists: not extracted)
+//   A-vec-extend    Vec::extend(Vec<T>) appends the elements in order (R9.method extend -> vx_extend)
+//   A-derive-clone  #[derive(Clone)] on HashMapValue yields an equal value
+//   A-slice-contains  <[T]>::contains is `exists i. s[i] == x` (PartialEq of T; vstd: content equality for &str)
+//   anyhow::Result / crate::Settings are inert placeholders (no contract)
 use vstd::std_specs::cmp::PartialEqSpec;
 use vstd::std_specs::core::IndexSpecImpl;
 
